@@ -319,6 +319,7 @@ fn describe_func(
         "iface": module,
         "name": f.name,
         "kind": kind,
+        "wit_async": matches!(f.kind, FunctionKind::AsyncFreestanding | FunctionKind::AsyncMethod(_) | FunctionKind::AsyncStatic(_)),
         "term": func_term(r, f),
         "params": f.params.iter().map(|p| json!({
             "name": p.name, "term": ty_term(r, &p.ty), "dterm": dty_term(r, &p.ty), "shape": shape_term(r, &p.ty),
